@@ -52,7 +52,7 @@ func main() {
 	specFile := flag.String("specs", "", "JSON file with a list of RunSpec")
 	harness := flag.String("harness", "", "single harness (alternative to -specs)")
 	out := flag.String("out", "", "result JSON")
-	solverKind := flag.String("solver", "z3", "z3 | z3-new | cvc5 | cvc5-int")
+	solverKind := flag.String("solver", "z3-new", "z3 | z3-new | cvc5 | cvc5-int")
 	solver2 := flag.String("solver2", "", "fallback solver for unknown assertion queries")
 	timeout := flag.Int("timeout", 60000, "per-query timeout ms")
 	maxPaths := flag.Int("maxpaths", 200000, "path bound")
@@ -92,6 +92,23 @@ func main() {
 		results = append(results, res)
 		if *verbose {
 			fmt.Fprintf(os.Stderr, "%s: paths=%d %v violations=%d inconclusive=%v queries=%d wall=%.1fs\n", sp.ID, res.Paths, res.PathsByKind, len(res.Violations), res.Inconclusive, res.Queries, res.Wall)
+		}
+	}
+	if *verbose {
+		type kv struct {
+			k string
+			v int
+		}
+		var l []kv
+		for k, v := range DecisionSites {
+			l = append(l, kv{k, v})
+		}
+		sort.Slice(l, func(i, j int) bool { return l[i].v > l[j].v })
+		for i, x := range l {
+			if i > 25 {
+				break
+			}
+			fmt.Fprintf(os.Stderr, "decision site %6d %s\n", x.v, x.k)
 		}
 	}
 	b, _ := json.MarshalIndent(results, "", " ")
